@@ -336,8 +336,9 @@ void World::doRestart(const Op& op) {
 	Slot& A = slots[size_t(iA)];
 	if (wants("C09") && !storeBroken && (storeHasSnapshot || (A.node->caps() & CAP_MANUAL)) && (A.node->caps() & CAP_HISTORY) && (A.node->caps() & CAP_SERIAL)) {
 		checked("C09.recovery");
+		bool scheduleLogged = false; for (auto& m : storeLog) if (m.hadSchedule) scheduleLogged = true;      // a scheduling request is not part of the history: what it prepared is lost in the replay (documented)
 		if (A.obs.activated != preCrash.activated || A.obs.active != preCrash.active)
-			violate("C09.recovery", "A: snapshot + log replay did not bring the restarted authority back to its pre-crash active configuration (" + std::to_string(storeLog.size()) + " logged steps)", iA);
+			violate("C09.recovery", "A: snapshot + log replay did not bring the restarted authority back to its pre-crash active configuration (" + std::to_string(storeLog.size()) + " logged steps)", iA, scheduleLogged ? "unrecorded_schedule_changes_resolution" : "");
 		else if (logExact && A.obs.resumable != preCrash.resumable)
 			violate("C09.recovery", "A: recovery reproduced the active configuration but not the resumable sub-states although every logged step was single-round and schedule-free", iA);
 	}
